@@ -16,13 +16,13 @@ func init() {
 			if tier == "thorough" {
 				return 5000
 			}
-			return 300
+			return 600
 		},
 		MinNT: func(tier string) int {
 			if tier == "thorough" {
 				return 2500
 			}
-			return 150
+			return 300
 		},
 		Run: runC02,
 		Assumptions: []string{
